@@ -22,6 +22,7 @@ import stat as stat_mod
 import sys
 
 SIM_ROOT = "/sim"
+SIM_EPOCH = 1.0e9            # simulated wall clock: one millisecond per reading
 SIM_HOME = "home/user"      # what ~ expands to inside the simulation (a SimFS directory)
 
 REPO = os.environ.get("VERIF_REPO", "/repo")
@@ -238,6 +239,20 @@ class _SimReadFile(io.BytesIO):
         super().close()
 
 
+class _TempNames(object):
+    """What tempfile draws its names from inside the simulation: a counter, not the OS entropy pool."""
+
+    def __init__(self):
+        self.n = 0
+
+    def __iter__(self):
+        return self
+
+    def __next__(self):
+        self.n += 1
+        return "sim%05d" % self.n
+
+
 class SimFS(object):
     """In-memory host filesystem.  Keys are normalised paths relative to the simulated cwd."""
 
@@ -245,6 +260,8 @@ class SimFS(object):
         self.files = {}
         self.symlinks = {}        # key -> target: symbolic links (to directories or files)
         self.fds = {}             # simulated file descriptors handed out by os.open
+        self.ticks = 0            # simulated clock readings so far (one millisecond each)
+        self.temp_names = _TempNames()
         self.cwd = ""             # simulated working directory of the current process, relative to SIM_ROOT
         self.log = log
         self.faults = {}          # path -> ("read_error", errno) consumed on open for reading
@@ -580,12 +597,50 @@ class _Seams(object):
         self._patch(os, "replace", sim_rename)
         self._patch(os, "listdir", sim_listdir)
         self._patch(os, "open", sim_os_open)
+
+        # the remaining sources of run-to-run difference a program can reach without the file system:
+        # temporary-file names, the clocks, the process id, the OS entropy pool, the shared random generator
+        import random
+        import tempfile
+        import time
+
+        def sim_now():
+            fs.ticks += 1
+            return SIM_EPOCH + fs.ticks * 0.001
+
+        real_localtime, real_gmtime, real_ctime, real_strftime = time.localtime, time.gmtime, time.ctime, time.strftime
+
+        def sim_strftime(fmt, t=None):
+            return real_strftime(fmt, real_gmtime(sim_now()) if t is None else t)
+
+        def sim_urandom(n):
+            fs.ticks += 1
+            return bytes((fs.ticks * 131 + k * 29 + 7) & 0xFF for k in range(n))
+
+        self._patch(tempfile, "_name_sequence", fs.temp_names)
+        self._patch(tempfile, "tempdir", SIM_ROOT)
+        self._patch(time, "time", sim_now)
+        self._patch(time, "time_ns", lambda: int(sim_now() * 1e9))
+        self._patch(time, "monotonic", sim_now)
+        self._patch(time, "perf_counter", sim_now)
+        self._patch(time, "process_time", sim_now)
+        self._patch(time, "sleep", lambda s: setattr(fs, "ticks", fs.ticks + int(s * 1000)))
+        self._patch(time, "localtime", lambda t=None: real_gmtime(sim_now() if t is None else t))
+        self._patch(time, "gmtime", lambda t=None: real_gmtime(sim_now() if t is None else t))
+        self._patch(time, "ctime", lambda t=None: real_ctime(sim_now() if t is None else t))
+        self._patch(time, "strftime", sim_strftime)
+        self._patch(os, "getpid", lambda: 4242)
+        self._patch(os, "urandom", sim_urandom)
+        self.random_state = random.getstate()
+        random.seed(0x5EED + fs.ticks)
         return self
 
     def __exit__(self, *exc):
+        import random
         for obj, name, old in reversed(self.saved):
             setattr(obj, name, old)
         self.saved = []
+        random.setstate(self.random_state)
         return False
 
 
